@@ -19,7 +19,7 @@ bash "$src/demo.sh" "$wt" >/tmp/wt/confirm-$name.patched.log 2>&1; rc_patched=$?
 echo "$name: demo_clean_rc=$rc_clean demo_patched_rc=$rc_patched baseline_ok=$((1-rc_base)) [$base]"
 if [ $rc_clean -eq 0 ] && [ $rc_patched -ne 0 ] && [ $rc_base -eq 0 ]; then
   d=/verif/seeded/$name; rm -rf "$d"; mkdir -p "$d"
-  cp -r "$src"/. "$d"/ ; rm -f "$d"/check.log "$d"/*.log
+  rsync -a --exclude work --exclude build --exclude "*.log" "$src"/ "$d"/
   python3 - "$d" "$pid" "$name" "$(git -C /repo rev-parse --short HEAD)" "$base" <<'PY'
 import json,sys,os
 d,pid,name,head,base=sys.argv[1:6]
